@@ -1,6 +1,7 @@
 (* C14 - File data read and written through client and Ufs is exact.
    Property theorems only (proved in Clnt/IOProofs.v). *)
 From Coq Require Import NArith List Bool.
+From V9 Require Shape.ShapeLib Shape.PUfs14.
 From V9 Require Import Lib.GoSem Lib.Bytes Gen.Consts Clnt.IO Clnt.IOProofs.
 Import ListNotations.
 Local Open Scope N_scope.
@@ -77,3 +78,10 @@ Example C14_nonvacuous :
   file_readn 11 128 3 [1;2;3;4;5;6;7] 10 2 = Ok [3;4;5;6;7] /\
   file_written 6 128 2 [1;2;3] 5 [9;8;7;6;5] = Ok (5, [1;2;3;0;0;9;8;7;6;5]).
 Proof. unfold sane, c_IOHDRSZ, u32max. vm_compute. repeat split; discriminate. Qed.
+
+
+(* ---- a modelling assumption about the shape of the CURRENT source (Gen/Shape.v), re-checked on every run ---- *)
+(* Ufs reads and writes with ReadAt / WriteAt: no file position shared between requests *)
+Theorem C14_source_reads_positionally : ShapeLib.ufs_reads_positionally = true.
+Proof. exact PUfs14.ufs_reads_positionally_ok. Qed.
+Print Assumptions C14_source_reads_positionally.
